@@ -256,10 +256,16 @@ def transform(text, log, where):
 
 
 def drop_statements(text, prefixes, log, where):
-    """R3: delete statements that start with one of the literal prefixes (through their `;`)."""
+    """R3: delete statements that start with one of the literal prefixes (through their `;`).
+    A prefix given as `PREFIX => REPLACEMENT` is not deleted but replaced by REPLACEMENT (a call to an
+    external_body marker of the unit's prelude that records THAT the statement ran, so its position
+    relative to the rest of the body stays under contract)."""
     if not prefixes:
         return text
-    for p in prefixes:
+    for p_full in prefixes:
+        p, _, repl = p_full.partition(" => ")
+        p = p.strip()
+        repl = repl.strip()
         while True:
             m = mask(text)
             idx = -1
@@ -292,6 +298,12 @@ def drop_statements(text, prefixes, log, where):
             ls = text.rfind("\n", 0, idx) + 1
             le = text.find("\n", k)
             le = len(text) if le < 0 else le + 1
+            if repl:
+                log.append({"where": where, "dropped_statement": " ".join(text[idx:k + 1].split())[:160], "replaced_by_marker": repl})
+                indent = text[ls:idx]
+                text = text[:ls] + indent + repl + "\n" + text[le:]
+                # a marker replaces ONE occurrence per directive line; move on to the next prefix
+                break
             log.append({"where": where, "dropped_statement": " ".join(text[idx:k + 1].split())[:160]})
             text = text[:ls] + text[le:]
     return text
@@ -368,6 +380,48 @@ def extract_slice(src, masked, fn_path, start_anchor, end_anchor, exact=False, e
             raise ExtractError(f"slice anchor `{anchor}` in `{fn_path}`: expected exactly one match, found {len(pos)}")
         return pos[0]
     a = once(start_anchor)
+    if end_anchor in ("$EOL", "$STMT", "$BLOCK", "$ENDBLOCK"):
+        # structural ends: the slice boundary does not depend on the text under contract
+        if end_anchor == "$EOL":
+            b = body.find("\n", a)
+            b = len(body) if b < 0 else b
+        elif end_anchor == "$STMT":
+            k, pd = a, 0
+            while k < len(mb):
+                ch = mb[k]
+                if ch in "([{":
+                    pd += 1
+                elif ch in ")]}":
+                    pd -= 1
+                elif ch == ";" and pd == 0:
+                    break
+                k += 1
+            if k >= len(mb):
+                raise ExtractError(f"slice `{start_anchor}` in `{fn_path}`: no statement end found")
+            b = k + 1
+        elif end_anchor == "$BLOCK":
+            # through the brace that closes the last `{` of the start anchor
+            # (or, when the anchor has none, the first `{` after it)
+            ob = a + start_anchor.rfind("{") if "{" in start_anchor else mb.find("{", a)
+            if ob < 0:
+                raise ExtractError("$BLOCK: no `{` after the start anchor")
+            b = match_brace(mb, ob) + 1
+        else:  # $ENDBLOCK: up to (not including) the brace that closes the block containing the start anchor
+            k, depth = a, 0
+            while k < len(mb):
+                ch = mb[k]
+                if ch == "{":
+                    depth += 1
+                elif ch == "}":
+                    depth -= 1
+                    if depth < 0:
+                        break
+                k += 1
+            if k >= len(mb):
+                raise ExtractError(f"slice `{start_anchor}` in `{fn_path}`: enclosing block end not found")
+            b = k
+        a_line = a if exact else body.rfind("\n", 0, a) + 1
+        return s + a_line, s + b
     # the end anchor is its first occurrence at or after the start anchor
     bpos = [mm.start() for mm in re.finditer(re.escape(end_anchor), body) if mm.start() >= a]
     if not bpos:
